@@ -6,6 +6,15 @@ props=[json.loads(l) for l in open('/verif/properties.jsonl')]
 HOOK_COMMITS=["dc2fd90"]
 # id -> (technique, level text, level note)
 DONE={
+ "C12":("runtime monitoring: complete sweep of every band configuration through the real API under recover(), judged by an independent Regional-Parameters model and the hook snapshot (downlink-capability of results)",
+        "held on the executions observed; the (config x uplink DR x offset) and (config x channel) spaces are enumerated completely in both tiers, ping-slot inputs are sampled",
+        "trusted: the regional rules transcribed in harness/spec/regional.go; LR-FHSS rows checked structurally only"),
+ "C13":("runtime monitoring: complete sweep of (config x version x revision x DR) through the real lookup API compared with a fallback model over the hook snapshot; closure, inverse-lookup and size-relation invariants; reference tables from the Regional Parameters",
+        "held on the executions observed; the finite space is enumerated completely in both tiers",
+        "trusted: harness/spec/regional.go reference values; (0,0) cells are N/A"),
+ "C17":("runtime monitoring: round-trip oracle over exhaustive/dense numeric sweeps and reflection-generated payload structs; RFC 3394 reference model for key envelopes with tampering",
+        "held on the executions observed; Percentage 0..1000 exhaustive, Frequency dense (thorough: every 100 Hz step to 2.5 GHz)",
+        "trusted: encoding/json, time, crypto/aes; harness RFC 3394 implementation"),
  "C04":("runtime monitoring: reference-model monitor (own CMAC, own LE serialisation, own AES-ECB) next to every join MIC / join-accept encrypt / decrypt call, with single-field perturbation rounds and a device-side decrypt model",
         "held on the executions observed: every MIC and ciphertext the library produces for generated join messages equals the independently computed spec value, and Validate agrees with the model on every single-field perturbation tried",
         "trusted: crypto/aes; harness CMAC; LoRaWAN 1.1 §6.2 join-accept MIC/encryption rules"),
